@@ -139,6 +139,41 @@ def pool_factory(ck):
     ck.require(n >= 1, 'pagination: no complete path')
 
 
+def trio_pagination(ck):
+    prog = ck.program('terraswap_factory', 'white_whale_std')
+    U = UNIVERSE
+    trios = [(U[0], U[1], U[3]), (U[2], U[0], U[1]), (U[3], U[2], U[1])]
+    def stored(it):
+        pf_world(it)
+        raw = lambda x: it.mkv(PN + 'asset::AssetInfoRaw', 'NativeToken', denom=Str(x[1])) if x[0] == 'native' else it.mkv(PN + 'asset::AssetInfoRaw', 'Token', contract_addr=Agg('cosmwasm_std::CanonicalAddr', [Str(x[1])]))
+        ents = []
+        for i, t in enumerate(trios):
+            ks = sorted([Str(x[1], canon=(True if x[0] == 'cw20' else None)) for x in t], key=raw_bytes)
+            ents.append(([Str(''.join(k.s for k in ks), canon=(ks if any(k.canon for k in ks) else None))],
+                         it.mk(PN + 'asset::TrioInfoRaw', asset_infos=Agg('array', [raw(x) for x in t]), contract_addr=Agg('cosmwasm_std::CanonicalAddr', [Str('trio_%d' % i)]),
+                               liquidity_token=it.mkv(PN + 'asset::AssetInfoRaw', 'Token', contract_addr=Agg('cosmwasm_std::CanonicalAddr', [Str('tlp_%d' % i)])), asset_decimals=Agg('array', [6, 6, 6]))))
+        it.world.map('trio_info', ents)
+    def body_page(it):
+        it.extra = {}; c = it.ctx; stored(it); env = mk_env(it, 10**18)
+        lim = c.sym('limit', 32); c.assume(lim >= 1)
+        seen = []; cursor = NONE()
+        for rnd in range(4):
+            q = enter(it, 'terraswap_factory', 'query', env, None, it.mkv(FQ, 'Trios', start_after=cursor, limit=SOME(lim)))
+            if q.variant != 'Ok': raise PathPruned()
+            page = q.fields[0].fields[0].payload.fields[0].items
+            if not page: break
+            seen += [deref(x.fields[1]).s for x in page]
+            cursor = SOME(dup(page[-1].fields[0]))
+        it.extra['seen'] = seen
+        return OK(UNIT())
+    n = 0
+    for p in ck.explore(prog, body_page, 'pool_factory.pagination.trios', unroll=80):
+        if p.kind != 'ret': continue
+        n += 1
+        ck.oblige('C19.pagination.once.trios', p, sorted(p.extra['seen']) != ['trio_0', 'trio_1', 'trio_2'], 'paging through the trio registry with any page size returns every entry exactly once')
+    ck.require(n >= 1, 'trio pagination: no complete path')
+
+
 def trio_factory(ck):
     prog = ck.program('terraswap_factory', 'white_whale_std')
     TR = UNIVERSE[:3]
@@ -364,10 +399,10 @@ def router_routes(ck):
 
 def main():
     ck = Check('C19')
-    pool_factory(ck); trio_factory(ck); vault_factory(ck); incentive_factory(ck); pagination_more(ck); router_routes(ck)
+    pool_factory(ck); trio_factory(ck); trio_pagination(ck); vault_factory(ck); incentive_factory(ck); pagination_more(ck); router_routes(ck)
     ck.bounds.update(assets='universe of 3 native + 1 cw20 assets; quick: 4 ordered pairs, thorough: all 12', registry='pagination over 3 stored pairs with a symbolic page size',
                      symbolic='decimals, code ids, fees, page size; asset names and reply addresses concrete (byte-string key code)')
-    ck.outside += ['collisions of un-delimited concatenated byte keys', 'pagination of trios', 'router executing hops only through registered pairs: obligation C19.router.exec.only_registered in the C14 check (router part)']
+    ck.outside += ['collisions of un-delimited concatenated byte keys', 'router executing hops only through registered pairs: obligation C19.router.exec.only_registered in the C14 check (router part)']
     return ck.finish()
 
 
